@@ -131,6 +131,8 @@ pub fn tok_doc(syn: &str, kind: &str, w: &str) -> Option<(String, Pos)> {
         ("bnode_q", _) if fam => (format!("<< _:{} <x:p> <x:o> >> <x:p> <x:o> .\n", w), In(0, 0)),
         ("bnode_qo", _) if fam => (format!("<x:s> <x:p> << <x:a> <x:b> _:{} >> .\n", w), In(2, 2)),
         ("bnode", _) if jsonld => (format!("{{\"@id\":{},\"http://x/p\":\"o\"}}", json_string(&format!("_:{}", w))), Top(0)),
+        // a blank node identifier as property: dropped by default, the predicate under produce_generalized_rdf
+        ("bnode_p", _) if jsonld => (format!("{{\"@id\":\"x:s\",{}:\"o\"}}", json_string(&format!("_:{}", w))), Top(1)),
         ("nodeid", "xml") => (xml_doc(&format!("rdf:nodeID=\"{}\"", xml_attr(w)), "<p xmlns=\"x:\">o</p>"), Top(0)),
         ("nodeid_o", "xml") => (xml_doc("rdf:about=\"x:s\"", &format!("<p xmlns=\"x:\" rdf:nodeID=\"{}\"/>", xml_attr(w))), Top(2)),
         ("lang", _) if fam => (format!("<x:s> <x:p> \"a\"@{} .\n", w), Top(2)),
@@ -263,7 +265,7 @@ fn raw_at(v: &[R], pos: Pos) -> Option<&R> {
 fn validator_ok(syn: &str, kind: &str, s: &str) -> bool {
     use sophia_api::term::{BnodeId, LanguageTag, VarName};
     match (base_kind(kind), kind) {
-        ("bnode" | "bnode_o" | "nodeid" | "nodeid_o", _) => BnodeId::new(s).is_ok(),
+        ("bnode" | "bnode_o" | "bnode_p" | "nodeid" | "nodeid_o", _) => BnodeId::new(s).is_ok(),
         ("lang" | "lang_p" | "ctx_lang", _) => LanguageTag::new(s).is_ok(),
         ("var", _) => VarName::new(s).is_ok(),
         ("dt" | "pname_dt", _) | (_, "pname_d") => sophia_iri::Iri::new(s).is_ok(),
@@ -329,7 +331,7 @@ fn exec_tok(syn: &str, kind: &str, w: &str) -> String {
             match first.get(top) {
                 Some(sv) => {
                     let k = match kind {
-                        "bnode" => 'b',
+                        "bnode" | "bnode_p" => 'b',
                         "iri" | "iri_o" | "type" | "graph" | "vocab" | "term" => 'i',
                         _ => 'l',
                     };
@@ -566,16 +568,31 @@ fn exec_rel(syn: &str, how: &str, kind: &str, base: &str, r: &str) -> String {
 
 static CHILD_NO: std::sync::atomic::AtomicUsize = std::sync::atomic::AtomicUsize::new(0);
 
-/// wall-clock allowance of one nesting / long-token child; a child that needs longer is reported as
-/// inconclusive, not as a violation (the machine is shared)
-const CHILD_TIMEOUT_S: u64 = 1200;
+/// A nesting / long-token child normally needs seconds.  Two allowances:
+///  * CPU time of the child (utime + stime from /proc): exceeding it means the parser itself burnt that
+///    much processor time on a document of a few megabytes — reported as non-termination (a failure);
+///  * wall-clock time: exceeding it while the CPU allowance is not used up only means the machine is
+///    busy — reported as inconclusive, not as a violation.
+const CHILD_CPU_LIMIT_S: u64 = 900;
+const CHILD_WALL_LIMIT_S: u64 = 5400;
+
+fn child_cpu_s(pid: u32) -> Option<u64> {
+    let s = std::fs::read_to_string(format!("/proc/{}/stat", pid)).ok()?;
+    let rest = s.get(s.rfind(')')? + 2..)?;
+    let f: Vec<&str> = rest.split(' ').collect();
+    // `rest` starts at field 3 (state); utime and stime are fields 14 and 15, in clock ticks (100 Hz on Linux)
+    let ut: u64 = f.get(11)?.parse().ok()?;
+    let st: u64 = f.get(12)?.parse().ok()?;
+    Some((ut + st) / 100)
+}
 
 /// deep nesting runs in a child process (same binary, `child` sub-command) on a thread with an
 /// explicit 8 MiB stack (the main-thread default on Linux), so that a stack overflow of the parser
 /// kills the child only.  Verdicts: the child's own reply; `FAIL.abort` when the child died of
 /// SIGABRT / SIGSEGV / SIGBUS / SIGILL (a stack overflow, an `abort()`), or exited with an error code;
+/// `FAIL.nontermination` when it used up its CPU allowance;
 /// `outcome=inconclusive` (no FAIL) when it was killed from outside (SIGKILL / SIGTERM: the OOM killer, an
-/// operator), ran out of memory, could not be started, or exceeded the allowance.
+/// operator), ran out of memory, could not be started, or exceeded the wall-clock allowance only.
 fn exec_deep(syn: &str, shape: &str, depth: &str) -> String {
     use std::os::unix::process::ExitStatusExt;
     let exe = match std::env::current_exe() {
@@ -612,10 +629,16 @@ fn exec_deep(syn: &str, shape: &str, depth: &str) -> String {
         match child.try_wait() {
             Ok(Some(st)) => break st,
             Ok(None) => {
-                if t0.elapsed().as_secs() >= CHILD_TIMEOUT_S {
+                let cpu = child_cpu_s(child.id()).unwrap_or(0);
+                if cpu >= CHILD_CPU_LIMIT_S {
                     let _ = child.kill();
                     let _ = child.wait();
-                    return cleanup(format!("outcome=inconclusive why=timeout_{}s", CHILD_TIMEOUT_S));
+                    return cleanup(format!("outcome=timeout cpu_s={} FAIL.nontermination={}.{}", cpu, syn, shape));
+                }
+                if t0.elapsed().as_secs() >= CHILD_WALL_LIMIT_S {
+                    let _ = child.kill();
+                    let _ = child.wait();
+                    return cleanup(format!("outcome=inconclusive why=wall_{}s cpu_s={}", CHILD_WALL_LIMIT_S, cpu));
                 }
                 std::thread::sleep(std::time::Duration::from_millis(nap));
                 nap = (nap * 2).min(50);
